@@ -244,17 +244,18 @@ Definition imon0 := mkIm false false false.
 Definition imon_step (m : imon) (e : ev) : option imon :=
   match e with
   | EvInterrupt _ => Some (mkIm true (i_inrun m) (i_wait m))
-  | EvItem _ => Some m
-  | EvRunEnter => if i_inrun m then None else Some (mkIm (i_pending m) true false)
+  | EvItem foreign =>          (* the wait is over; unless an interrupt is pending (or comes now), the loop goes on *)
+      Some (mkIm (i_pending m) (i_inrun m) (i_wait m && (foreign || i_pending m)))
+  | EvRunEnter => if i_inrun m || i_wait m then None else Some (mkIm (i_pending m) true false)
   | EvRunRet => if i_inrun m && i_pending m then Some (mkIm false false false) else None
   | _ =>
-      if i_wait m && i_pending m then None          (* the wait saw the interrupt: run() must return now *)
+      if i_wait m then None          (* the wait saw the interrupt: run() must return now *)
       else
         match e with
         | EvWait _ => if i_inrun m then Some (mkIm (i_pending m) true true) else None
         | EvNow _ | EvAct _ _ _ | EvCb _ _ _ | EvIntro _ _ _ _ | EvIntroRet _ _ | EvAccept _ _ | EvSoErr _ _ =>
-            if i_inrun m then Some (mkIm (i_pending m) true false) else None
-        | _ => Some (mkIm (i_pending m) (i_inrun m) false)
+            if i_inrun m then Some m else None
+        | _ => Some m
         end
   end.
 
